@@ -17,8 +17,10 @@ operation sequence):
   (b) every changed byte range lies inside a block allocated for the targeted object, inside the heap /
       symbol-node block of the parent group (creations, links), or inside a block allocated by this call;
       for a call that returned an error: inside blocks allocated by this call only (hard link: or inside
-      the target's header block).  Close / reopen: nothing but the first 48 bytes (the superblock's
-      end-of-file field and checksum, rewritten by Close when the allocator moved).  (frame property, byte-wise)
+      the target's header block).  A variable-length write may also rewrite the global heap collection that was
+      current when it started (roll-over flush).  Close / reopen: nothing but the first 48 bytes (the superblock's
+      end-of-file field and checksum, rewritten by Close when the allocator moved) and the current global heap
+      collection (lazy flush: must end inside the block allocated for it).  (frame property, byte-wise)
   (c) after Close the file size is at least the allocator's end of file, and the allocator of the next
       session does not start below it.
 Fidelity diagnostics (NOT violations; reported in `samples`): ok/err, end of file, file size, sequence of
